@@ -68,6 +68,7 @@ Theorem C11_prefix_search : forall (s : fsys) (vp vv : view) (slm : slmode) (ds 
   v_os vp = Linux -> v_os vv = Linux -> v_user vv = v_user vp ->
   Forall good_comp ds -> Forall good_comp ps -> ps <> [] ->
   dir_chain (f_heap s) (v_user vp) (v_root vp) ds (v_root vv) ->
+  perm_on (f_heap s) (v_root vp) OpenLookup (v_user vp) = true ->
   symfree_walk (f_heap s) (v_root vv) ps ->
   length ds + length ps < SEARCH_FUEL ->
   sr_corr ds ps (search_node s vp (abs_path (ds ++ ps)) slm) (search_node s vv (abs_path ps) slm).
@@ -87,6 +88,7 @@ Theorem C11_prefix_root : forall (s : fsys) (vp vv : view) (slm : slmode) (ds : 
   v_os vp = Linux -> v_os vv = Linux ->
   Forall good_comp ds -> ds <> [] ->
   dir_chain (f_heap s) (v_user vp) (v_root vp) ds (v_root vv) ->
+  perm_on (f_heap s) (v_root vp) OpenLookup (v_user vp) = true ->
   length ds < SEARCH_FUEL ->
   let rp := search_node s vp (abs_path ds) slm in
   let rv := search_node s vv (abs_path []) slm in
@@ -103,6 +105,7 @@ Theorem C11_prefix_any_path : forall (s : fsys) (vp vv : view) (slm : slmode) (d
   let qs := view_comps cw p in
   qs <> [] ->
   dir_chain (f_heap s) (v_user vp) (v_root vp) ds (v_root vv) ->
+  perm_on (f_heap s) (v_root vp) OpenLookup (v_user vp) = true ->
   symfree_walk (f_heap s) (v_root vv) qs ->
   length ds + length qs < SEARCH_FUEL ->
   sr_corr ds qs (search_node s vp (abs_path (ds ++ qs)) slm) (search_node s vv p slm).
@@ -113,6 +116,7 @@ Theorem C11_prefix : forall (w : world) (vi vj : nat) (vp vv : view) (ds : list 
   nth_error (w_views w) vi = Some vp -> nth_error (w_views w) vj = Some vv ->
   view_agree vp vv -> Forall good_comp ds ->
   dir_chain (f_heap (w_fs w)) (v_user vp) (v_root vp) ds (v_root vv) ->
+  perm_on (f_heap (w_fs w)) (v_root vp) OpenLookup (v_user vp) = true ->
   forall (k : pcall) (ps : list str), okpath (w_fs w) vv ds ps ->
   let a := wstep w (mk1 k vi (abs_path (ds ++ ps))) in
   let b := wstep w (mk1 k vj (abs_path ps)) in
@@ -124,6 +128,7 @@ Theorem C11_prefix2 : forall (w : world) (vi vj : nat) (vp vv : view) (ds : list
   nth_error (w_views w) vi = Some vp -> nth_error (w_views w) vj = Some vv ->
   view_agree vp vv -> Forall good_comp ds ->
   dir_chain (f_heap (w_fs w)) (v_user vp) (v_root vp) ds (v_root vv) ->
+  perm_on (f_heap (w_fs w)) (v_root vp) OpenLookup (v_user vp) = true ->
   forall (k : pcall2) (po pn : list str), okpath (w_fs w) vv ds po -> okpath (w_fs w) vv ds pn ->
   let a := wstep w (mk2 k vi (abs_path (ds ++ po)) (abs_path (ds ++ pn))) in
   let b := wstep w (mk2 k vj (abs_path po) (abs_path pn)) in
@@ -135,6 +140,7 @@ Theorem C11_prefix_chdir : forall (w : world) (vi vj : nat) (vp vv : view) (ds :
   nth_error (w_views w) vi = Some vp -> nth_error (w_views w) vj = Some vv ->
   view_agree vp vv -> Forall good_comp ds ->
   dir_chain (f_heap (w_fs w)) (v_user vp) (v_root vp) ds (v_root vv) ->
+  perm_on (f_heap (w_fs w)) (v_root vp) OpenLookup (v_user vp) = true ->
   forall ps : list str, okpath (w_fs w) vv ds ps ->
   snd (wstep w (CChdir vj (abs_path ps))) = ROk ->
   snd (wstep w (CChdir vi (abs_path (ds ++ ps)))) = ROk
@@ -195,6 +201,7 @@ Proof. vm_compute. repeat split. Qed.
 Example C11_example_hyps :
   view_agree ex_vp ex_vv /\ Forall good_comp [ex_a]
   /\ dir_chain (f_heap (w_fs ex_w2)) (v_user ex_vp) (v_root ex_vp) [ex_a] (v_root ex_vv)
+  /\ perm_on (f_heap (w_fs ex_w2)) (v_root ex_vp) OpenLookup (v_user ex_vp) = true
   /\ okpath (w_fs ex_w2) ex_vv [ex_a] [ex_x].
 Proof.
   assert (Hg : forall c : N, c <> 47%N -> c <> 46%N -> Forall good_comp [[c]]).
@@ -202,10 +209,9 @@ Proof.
     - intros y [<-|[]]. exact H1.
     - intros E. injection E as E. auto. }
   split; [constructor; vm_compute; reflexivity|]. split; [apply Hg; discriminate|].
-  split.
-  - vm_compute. do 3 eexists. repeat split.
-  - split; [apply Hg; discriminate|]. split; [discriminate|]. split; [vm_compute; exact I|].
-    unfold SEARCH_FUEL. cbn [length]. lia.
+  split; [vm_compute; do 3 eexists; repeat split|]. split; [vm_compute; reflexivity|].
+  split; [apply Hg; discriminate|]. split; [discriminate|]. split; [vm_compute; exact I|].
+  unfold SEARCH_FUEL. cbn [length]. lia.
 Qed.
 
 (* ... and its conclusion, computed: same node graph, both calls succeed, and the new
